@@ -73,6 +73,7 @@ func (ReaderSvc) Consume(ctx context.Context, r io.Reader, pattern int, tag stri
 		n, err := r.Read(buf)
 		h.Write(buf[:n])
 		d.N += n
+		atomic.AddInt64(&c20Progress, int64(n))
 		return n, err
 	}
 	var err error
@@ -249,7 +250,28 @@ func (d *dribble) Read(p []byte) (int, error) {
 }
 
 // callerReader wraps the payload in the kind of io.Reader an application might pass.
+// c20Progress counts bytes pulled from caller readers and bytes consumed by handlers; the hang
+// verdict waits as long as it grows (a stall rule instead of a fixed total).
+var c20Progress int64
+
+type progressReader struct{ r io.Reader }
+
+func (p progressReader) Read(b []byte) (int, error) {
+	n, err := p.r.Read(b)
+	atomic.AddInt64(&c20Progress, int64(n))
+	return n, err
+}
+
 func callerReader(kind int, data []byte, seed int64) io.Reader {
+	r := callerReader0(kind, data, seed)
+	switch r.(type) {
+	case *bytes.Reader, *strings.Reader: // net/http takes the upload's Content-Length from these: keep them as they are
+		return r
+	}
+	return progressReader{r}
+}
+
+func callerReader0(kind int, data []byte, seed int64) io.Reader {
 	switch kind {
 	case 1:
 		// one byte per read for the first 64 KiB, the rest in one piece: every byte as its
@@ -443,7 +465,7 @@ func (c20) Run(sc core.Scenario) core.Result {
 	done := make(chan struct{})
 	go func() { wg.Wait(); close(done) }()
 	label := fmt.Sprintf("%s len=%d content=%d pattern=%s order=%d conc=%d caller-reader=%s", tr, ln, content, c20PatName[pat], order, conc, c20ReaderKinds[sc.I("rk")])
-	if !core.WaitCh(done, 4*core.Grace) {
+	if !core.WaitProgress(done, 4*core.Grace, func() int64 { return atomic.LoadInt64(&c20Progress) }) {
 		r.Violate("reader-call-hang", "%s: reader-carrying call(s) never returned", label)
 		return r.Result()
 	}
